@@ -185,7 +185,8 @@ class BatchResult:
 _VIOL_RE = re.compile(r'^VIOL run=(\d+) seed=(\d+) class=(\S+) op=(-?\d+) msg="(.*)"$', re.M)
 
 
-def _run_one_batch(binary, profile, verif_seed, start, count, timeout, use_bitmap, stop_on_violation=True):
+def _run_one_batch(binary, profile, verif_seed, start, count, timeout, use_bitmap, stop_on_violation=True,
+                   crash_note_ops=()):
     """Runs [start, start+count). Survives crashes/hangs of individual runs: the in-flight run is
     identified from the progress file and the batch is resumed after it."""
     os.makedirs(WORK, exist_ok=True)
@@ -199,7 +200,8 @@ def _run_one_batch(binary, profile, verif_seed, start, count, timeout, use_bitma
             raise HarnessError('batch %s@%d keeps dying' % (profile, start))
         pf = os.path.join(WORK, 'prog-%d-%s-%d' % (os.getpid(), profile, start))
         bmf = pf + '.bm' if use_bitmap else None
-        cmd = [binary, 'batch', profile, str(verif_seed), str(pos), str(end - pos), pf] + ([bmf] if bmf else [])
+        cmd = [binary, 'batch', profile, str(verif_seed), str(pos), str(end - pos), pf] + (['--bitmap', bmf] if bmf else []) \
+            + (['--crash-note-ops', ','.join(crash_note_ops)] if crash_note_ops else [])
         died = None
         try:
             p = subprocess.run(cmd, stdout=subprocess.PIPE, stderr=subprocess.PIPE, text=True,
@@ -235,10 +237,21 @@ def _run_one_batch(binary, profile, verif_seed, start, count, timeout, use_bitma
                     out['bitmaps'].append(f.read())
                 os.unlink(bmf)
             pos = int(nm.group(1)) if nm else end
+            try:
+                os.unlink(pf + '.stats')
+            except OSError:
+                pass
             if out['viol'] and stop_on_violation:
                 break
             continue
-        # abnormal end
+        # abnormal end: recover the last coverage snapshot the batch wrote
+        try:
+            with open(pf + '.stats') as f:
+                snap = re.search(r'^STATS (.*)$', f.read(), re.M)
+            if snap:
+                out['stats'].append(json.loads(snap.group(1)))
+        except (OSError, ValueError):
+            pass
         if inflight is None:
             raise HarnessError('simdev batch died without progress record: rc=%s stderr=%s' % (rc, se[-1500:]))
         if died == 'timeout':
@@ -256,7 +269,7 @@ def _run_one_batch(binary, profile, verif_seed, start, count, timeout, use_bitma
 
 
 def run_batches(binary, profile, verif_seed, total_runs, batch_size, workers=None, batch_timeout=900,
-                use_bitmap=False, stop_on_violation=True, first_run=0, deadline=None):
+                use_bitmap=False, stop_on_violation=True, first_run=0, deadline=None, crash_note_ops=()):
     """Executes runs [first_run, first_run+total_runs) in parallel batches; aggregates in index order."""
     workers = workers or min(16, os.cpu_count() or 4)
     res = BatchResult()
@@ -269,7 +282,8 @@ def run_batches(binary, profile, verif_seed, total_runs, batch_size, workers=Non
         if deadline and time.time() > deadline:
             return None
         n = min(batch_size, first_run + total_runs - s)
-        r = _run_one_batch(binary, profile, verif_seed, s, n, batch_timeout, use_bitmap, stop_on_violation)
+        r = _run_one_batch(binary, profile, verif_seed, s, n, batch_timeout, use_bitmap, stop_on_violation,
+                           crash_note_ops)
         if r['viol'] and stop_on_violation:
             stop['flag'] = True
         return r
@@ -379,7 +393,26 @@ def shrink_numbers(binary, text, ref_class, timeout=30, max_tests=1500):
     return join_trace(head, lines), tests[0]
 
 
+def expand_repeats(text):
+    """QR <slot> repeats the last query; make every op self-contained before shrinking."""
+    head, lines = split_trace(text)
+    last = None
+    out = []
+    for l in lines:
+        t = l.split()
+        if t and t[0] == 'Q' and len(t) >= 3:
+            last = ' '.join(t[2:]).split('#')[0].strip()
+        if t and t[0] == 'QR' and len(t) >= 2 and last:
+            out.append('Q %s %s' % (t[1], last))
+        else:
+            out.append(l)
+    return join_trace(head, out)
+
+
 def minimise(binary, text, ref_class, timeout=30):
+    ex = expand_repeats(text)
+    if same_failure(run_trace(binary, ex, timeout), ref_class):
+        text = ex
     t1, n1 = ddmin(binary, text, ref_class, timeout)
     t2, n2 = shrink_numbers(binary, t1, ref_class, timeout)
     t3, n3 = ddmin(binary, t2, ref_class, timeout, max_tests=600)
